@@ -1423,6 +1423,11 @@ void mmd_assign_ambidextrous_tokens_in_block(mmd_engine * e, token * block, size
 				t->next = new;
 				new->prev = t;
 
+				if (block->child->tail == t) {
+					// The new token is now the last one of the chain
+					block->child->tail = new;
+				}
+
 				t->len = 1;
 				t->type = CRITIC_SUB_DIV_A;
 				break;
